@@ -857,6 +857,9 @@ def correspondence(ctx):
         if t[1] == 'sweep':
             return t[3].count('|') >= 1
         return True
+    # a rejection is a rejection: which exception class / message the implementation (or the model's label) uses must not matter
+    canon = lambda x: 'error' if isinstance(x, str) and x.startswith('error') else x
+    impl = [canon(x) for x in impl]; model = [canon(x) for x in model]
     common.compare(ctx, ops, impl, model, nontrivial=nontrivial)
     sylv_tie(ctx, rng)
     logm_inner_tie(ctx, rng)
